@@ -70,6 +70,21 @@ CLAIMED = {
         "text": "Only the structural clauses of the save/load half are decided: in both dtype-conversion blocks every arm must rebind the array by plain assignment to an expression of the requested dtype (an augmented assignment is a violation) with the scale factor in the right direction; every subscript of the unsigned-maximum table must be an np.dtype and the table must map uintN to 2**N-1; the axes string written by save_tiff must equal (X,Y,Z,C) permuted by the constant moveaxis applied before writing, the reader's argsort over its axis table must map that string back to (X,Y,Z,C), the fallback layout must be the writer's, rasterised frames are stacked along axis 0 and sampled at voxel centres. What tifffile/pynrrd persist and the rasteriser's voxel membership are not decided.",
         "note": ASSUME,
     },
+    "C13": {
+        "technique": "AST-to-polynomial translation (exact rational functions) with identity checking against the definitions; cell-wise symbolic evaluation of the case analysis over the hyperplane arrangement of all guards; role/def-use rules; dispatch-ladder tables",
+        "text": "Every closed form (sphere, cap, frustum, two-sphere lens, the two unions) is translated from its AST into an exact rational function over (r, h, d, pi) and compared with the definition's formula as a polynomial identity (every coefficient and exponent; degree 3). The case analysis of the two composite forms is decided cell by cell: one exact rational witness per cell of the arrangement formed by all guard hyperplanes (the code's and the definition's), guards folded at the witness, the expression returned by the branch taken compared symbolically with the formula the definition prescribes for that cell (disjoint / tangent / overlapping / nested / coincident spheres, both operand orders; sphere on the smaller or larger end, short or tall frustum, side leaving the sphere or not). Role rules tie the symbols to the geometry (centre distance, frustum height, the other end's radius, exit height and radius, the slant line); the line-sphere intersection and point projection helpers are checked as formal identities over dot products; the dispatch ladders give closed forms exactly to the operand pairs named, sphere first. Floating-point error, the eps tolerance and the sampled fallback are not decided.",
+        "note": ASSUME + " The textbook formulas are taken as the definition of the true volume.",
+    },
+    "C14": {
+        "technique": "finite gating table by constant folding (levels 1..9 x child counts 0..3), inclusion-exclusion coefficient table, def-use rules on the accumulator, plus the polynomial/cell-wise checks of the primitives",
+        "text": "The per-node accumulation is parsed into signed terms over the atoms S (node sphere), C (frustum to a child), K (child sphere): for every analytic level 1..9 and child count 0..3 the guards are folded and the multiset of signed terms is compared with the definition (level 1: spheres; level 2: spheres + frusta; levels >= 3: inclusion-exclusion, optionally with the pairwise frustum correction); level 10 goes to the sampling routine; named levels map into 3..9. Net coefficients at level >= 3 under the property's premise (lens of neighbouring spheres inside their frustum): S +1, C +1, S&C -1, K&C -1, S&K 0. Atoms are what the definition says (sphere = node position and radius; frustum from the node to each child; child sphere and frustum paired by position); every node contributes once and hands its sphere to its parent. The closed forms being summed are decided by the same polynomial-identity and cell-wise rules as C13, including which end of the frustum a sphere sits on.",
+        "note": ASSUME + " Premise of the property: compartments at least as long as their end radii; non-adjacent parts do not touch.",
+    },
+    "C15": {
+        "technique": "parser typestate by abstract interpretation (bracket depth, explicit-stack height, look-ahead token-type sets; loop fixpoints, recursion by summary iteration) + call-graph cycle check + def-use rules on the conversion walk + table agreement + exception-propagation rules",
+        "text": "Every method of the ASC parser is interpreted over an abstract state (bracket depth relative to the explicit split stack, stack height 0/1/many, set of possible types of the look-ahead token, token-valued locals); branch conditions on token types refine the sets, loops are iterated to a fixpoint, self-recursion is summarised. Obligations: each parse method has exactly one net bracket effect, the document parser returns only at depth 0 (so a split consumes its own closing bracket and a truncated document is rejected), end of input inside a construct ends in an error. The conversion path is recursion-free (branch length and nesting depth do not grow the interpreter stack). The conversion walk allocates one id per point (read, then a single +1), appends each column once, records the parent handed down in the frame, hands its own id to its children, passes the parent through headers, skips colours/comments, and numbers points in document order (LIFO frames, children pushed reversed); a point is four numbers and a closing bracket stored as x, y, z, r; alternatives of a split hang on the point before the split; labels accepted by the parser equal labels mapped to node types; parse errors are re-raised on every path. The lexer's number grammar is not decided.",
+        "note": ASSUME,
+    },
     "C16": {
         "technique": "abstract shape inference (rank of concatenate operands), argument-discipline check over the call-graph slice, symmetric-trim rule, write-set / interior-slice lint, axis-family agreement, ownership interpretation",
         "text": "Structural clauses of resampling and smoothing: every operand of np.concatenate in the resamplers has rank >= 1; generic code reachable from the resampler/smoother/assembler calls soma() only with type_check=False; the assembler drops one sample iff the branch's start (resp. end) point duplicates the tree node, none otherwise, and then appends the end node; smoothers store only x,y,z and only the interior 1:-1 of a detached copy; x,y,z and r are interpolated at the same positions over the same abscissae; n = ceil(L/spacing)+1 positions from 0 to L (linspace / arange + end point), per branch of the branch tree; re-assembly numbers nodes by output position with parent = predecessor, first node on the start node's new id, children continuing from the end node's new id; inputs untouched, results fresh. Equal spacing, 'length never grows' and linear radii as numeric statements are not decided.",
